@@ -120,6 +120,11 @@ func (f *RawMessageFilter) ConsumeCacheMessages(consensusMessagesHandler Consens
 		f.logger.Debug("LHFILTER consuming %d messages from height=%d", len(messages), height)
 	}
 	for _, message := range messages {
+		if f.state.Height() != height {
+			// a cached message committed this height and the next term was started re-entrantly:
+			// the rest of the cache belongs to a past height and must not reach the new term
+			break
+		}
 		f.processConsensusMessage(message)
 	}
 	delete(f.futureCache, height)
